@@ -276,6 +276,8 @@ ovni_proc_init(int app, const char *loom, int pid)
 	atomic_store(&rproc.st, ST_READY);
 }
 
+/* Returns 0 on success, -1 if the copy failed (the source is kept) and +1
+ * if the copy is complete but the source could not be removed */
 static int
 move_thread_to_final(const char *src, const char *dst)
 {
@@ -291,20 +293,41 @@ move_thread_to_final(const char *src, const char *dst)
 	FILE *outfile = fopen(dst, "w");
 
 	if (outfile == NULL) {
-		err("fopen(%s) failed:", src);
+		err("fopen(%s) failed:", dst);
+		fclose(infile);
 		return -1;
 	}
 
+	int ret = 0;
 	size_t bytes;
-	while ((bytes = fread(buffer, 1, sizeof(buffer), infile)) > 0)
-		fwrite(buffer, 1, bytes, outfile);
+	while ((bytes = fread(buffer, 1, sizeof(buffer), infile)) > 0) {
+		if (fwrite(buffer, 1, bytes, outfile) != bytes) {
+			err("fwrite(%s) failed:", dst);
+			ret = -1;
+			break;
+		}
+	}
 
-	fclose(outfile);
+	if (ret == 0 && ferror(infile)) {
+		err("fread(%s) failed:", src);
+		ret = -1;
+	}
+
+	/* The data may still be in the buffer, so the write can fail here */
+	if (fclose(outfile) != 0) {
+		err("fclose(%s) failed:", dst);
+		ret = -1;
+	}
+
 	fclose(infile);
+
+	/* Don't remove the only complete copy */
+	if (ret != 0)
+		return -1;
 
 	if (remove(src) != 0) {
 		err("remove(%s) failed:", src);
-		return -1;
+		return +1;
 	}
 
 	return 0;
@@ -315,17 +338,16 @@ move_thdir_to_final(const char *thdir, const char *thdir_final)
 {
 	DIR *dir;
 	int ret = 0;
+	int leftover = 0;
 
-	if ((dir = opendir(thdir)) == NULL) {
-		err("opendir %s failed:", thdir);
-		return;
-	}
+	if ((dir = opendir(thdir)) == NULL)
+		die("opendir %s failed:", thdir);
 
 	struct dirent *dirent;
 	const char *prefix = "stream.";
 	const char *metadata = "stream.json";
 	int has_metadata = 0;
-	while ((dirent = readdir(dir)) != NULL) {
+	while (errno = 0, (dirent = readdir(dir)) != NULL) {
 		/* It should only contain stream.* directories, skip others */
 		if (strncmp(dirent->d_name, prefix, strlen(prefix)) != 0)
 			continue;
@@ -357,8 +379,17 @@ move_thdir_to_final(const char *thdir, const char *thdir_final)
 			continue;
 		}
 
-		if (move_thread_to_final(thread, thread_final) != 0)
+		int r = move_thread_to_final(thread, thread_final);
+		if (r < 0)
 			ret = 1;
+		else if (r > 0)
+			leftover = 1;
+	}
+
+	/* A NULL from readdir() is also how it reports errors */
+	if (errno != 0) {
+		err("readdir %s failed:", thdir);
+		ret = 1;
 	}
 
 	closedir(dir);
@@ -372,14 +403,24 @@ move_thdir_to_final(const char *thdir, const char *thdir_final)
 					thdir_final, metadata) >= PATH_MAX) {
 			err("snprintf: path too large: %s/%s", thdir, metadata);
 			ret = 1;
-		} else if (move_thread_to_final(meta, meta_final) != 0) {
-			ret = 1;
+		} else {
+			int r = move_thread_to_final(meta, meta_final);
+			if (r < 0)
+				ret = 1;
+			else if (r > 0)
+				leftover = 1;
 		}
 	}
 
-	/* Warn the user, but we cannot do much at this point */
+	/* The complete copy is already in place, only warn */
+	if (leftover)
+		warn("cannot remove some files from %s", thdir);
+
+	/* The trace in the final directory is not complete: don't return as
+	 * if it was. The streams are kept in the temporal directory. */
 	if (ret)
-		err("errors occurred when moving the thread dir to %s", thdir_final);
+		die("cannot move the thread streams from %s to %s",
+				thdir, thdir_final);
 }
 
 static void
